@@ -33,65 +33,141 @@ theorem length_le_of_nodup_subset {α : Type} [DecidableEq α] : ∀ (l names : 
     simp only [List.length_cons]
     omega
 
+theorem toLower_of_isDigit {c : Char} (h : c.isDigit = true) : c.toLower = c := by
+  simp only [Char.isDigit, Bool.and_eq_true, decide_eq_true_eq] at h
+  simp only [Char.toLower]
+  split
+  · rename_i hu
+    exfalso
+    have h1 : c.val.toNat ≤ '9'.val.toNat := UInt32.le_iff_toNat_le.mp h.2
+    have h2 : 'A'.val.toNat ≤ c.val.toNat := UInt32.le_iff_toNat_le.mp hu.1
+    have e1 : '9'.val.toNat = 57 := by decide
+    have e2 : 'A'.val.toNat = 65 := by decide
+    omega
+  · rfl
+
+theorem lowerStr_append (a b : String) : lowerStr (a ++ b) = lowerStr a ++ lowerStr b := by
+  simp only [lowerStr, String.toList_append, List.map_append, String.ofList_append]
+
+theorem map_toLower_digits (n : Nat) : (Nat.toDigits 10 n).map Char.toLower = Nat.toDigits 10 n := by
+  conv => rhs; rw [← List.map_id (Nat.toDigits 10 n)]
+  apply List.map_congr_left
+  intro c hc
+  exact toLower_of_isDigit (Nat.isDigit_of_mem_toDigits (by decide) (by decide) hc)
+
+theorem lowerSuffix_inj {base : String} {a b : Nat}
+    (h : lowerStr (base ++ uniqSuffix a) = lowerStr (base ++ uniqSuffix b)) : a = b := by
+  rw [lowerStr_append, lowerStr_append, String.append_right_inj] at h
+  simp only [uniqSuffix, lowerStr_append, String.append_right_inj] at h
+  have h2 := congrArg String.toList h
+  simp only [lowerStr, String.toList_ofList, Nat.toString_eq_repr, Nat.toList_repr, map_toLower_digits] at h2
+  have h3 := congrArg (fun l => Nat.ofDigitChars 10 l 0) h2
+  simpa using h3
+
 /-- if the search fails, all `fuel` candidates are taken -/
-theorem pickCtr_none {names : List String} {base : String} : ∀ (fuel ctr : Nat), pickCtr names base fuel ctr = none →
-    ∀ k, ctr ≤ k → k < ctr + fuel → (base ++ uniqSuffix k) ∈ names
+theorem pickCtr_none {names eids : List String} {nm eid : Option String} : ∀ (fuel ctr : Nat),
+    pickCtr names eids nm eid fuel ctr = none → ∀ k, ctr ≤ k → k < ctr + fuel → candTaken names eids nm eid k = true
   | 0, ctr, _, k, h1, h2 => by omega
   | fuel + 1, ctr, h, k, h1, h2 => by
     simp only [pickCtr] at h
     split at h
     · rename_i hc
       by_cases hk : k = ctr
-      · subst hk; simpa using hc
+      · subst hk; exact hc
       · exact pickCtr_none fuel (ctr + 1) h k (by omega) (by omega)
     · cases h
 
-theorem pickCtr_some {names : List String} {base : String} {fuel ctr : Nat} (h : names.length < fuel) :
-    (pickCtr names base fuel ctr).isSome = true := by
-  cases hp : pickCtr names base fuel ctr with
+def nameHit (names : List String) (nm : Option String) (k : Nat) : Bool :=
+  match nm with | some n => names.contains (n ++ uniqSuffix k) | none => false
+
+def eidHit (eids : List String) (eid : Option String) (k : Nat) : Bool :=
+  match eid with | some e => eids.contains (lowerStr (e ++ uniqSuffix k)) | none => false
+
+theorem candTaken_eq (names eids : List String) (nm eid : Option String) (k : Nat) :
+    candTaken names eids nm eid k = (nameHit names nm k || eidHit eids eid k) := rfl
+
+theorem nameHit_mem {names : List String} {nm : Option String} {k : Nat} (h : nameHit names nm k = true) :
+    nm.getD "" ++ uniqSuffix k ∈ names := by
+  cases nm with
+  | none => simp [nameHit] at h
+  | some n => simpa [nameHit] using h
+
+theorem eidHit_mem {eids : List String} {eid : Option String} {k : Nat} (h : eidHit eids eid k = true) :
+    lowerStr (eid.getD "" ++ uniqSuffix k) ∈ eids := by
+  cases eid with
+  | none => simp [eidHit] at h
+  | some e => simpa [eidHit] using h
+
+theorem nodup_map_of_inj_on'' {α β : Type} {f : α → β} : ∀ {l : List α}, l.Nodup →
+    (∀ a ∈ l, ∀ b ∈ l, f a = f b → a = b) → (l.map f).Nodup
+  | [], _, _ => by simp
+  | x :: l, hnd, hinj => by
+    simp only [List.map_cons, List.nodup_cons] at hnd ⊢
+    refine ⟨?_, nodup_map_of_inj_on'' hnd.2 (fun a ha b hb => hinj a (List.mem_cons_of_mem _ ha) b (List.mem_cons_of_mem _ hb))⟩
+    intro hm
+    obtain ⟨y, hy, hxy⟩ := List.mem_map.mp hm
+    have := hinj y (List.mem_cons_of_mem _ hy) x List.mem_cons_self hxy
+    subst this
+    exact hnd.1 hy
+
+theorem pickCtr_some {names eids : List String} {nm eid : Option String} {fuel ctr : Nat}
+    (h : names.length + eids.length < fuel) : (pickCtr names eids nm eid fuel ctr).isSome = true := by
+  cases hp : pickCtr names eids nm eid fuel ctr with
   | some k => rfl
   | none =>
     exfalso
     have hall := pickCtr_none fuel ctr hp
-    let cand := (List.range fuel).map (fun i => base ++ uniqSuffix (ctr + i))
-    have hnd : cand.Nodup := by
-      refine nodup_map_of_inj_on' (List.nodup_range) ?_
+    let f : Nat → Bool × String := fun i =>
+      if nameHit names nm (ctr + i) then (false, nm.getD "" ++ uniqSuffix (ctr + i))
+      else (true, lowerStr (eid.getD "" ++ uniqSuffix (ctr + i)))
+    let pool : List (Bool × String) := names.map (fun s => (false, s)) ++ eids.map (fun s => (true, s))
+    have hnd : ((List.range fuel).map f).Nodup := by
+      refine nodup_map_of_inj_on'' List.nodup_range ?_
       intro a _ b _ hab
-      have := uniqSuffix_inj hab
-      omega
-    have hsub : ∀ a ∈ cand, a ∈ names := by
-      intro a ha
-      obtain ⟨i, hi, rfl⟩ := List.mem_map.mp ha
-      exact hall (ctr + i) (by omega) (by have := List.mem_range.mp hi; omega)
-    have := length_le_of_nodup_subset cand names hnd hsub
-    simp only [cand, List.length_map, List.length_range] at this
+      simp only [f] at hab
+      by_cases ha : nameHit names nm (ctr + a) <;> by_cases hb : nameHit names nm (ctr + b)
+      · simp only [ha, hb, if_true, Prod.mk.injEq, true_and] at hab
+        have := uniqSuffix_inj hab; omega
+      · simp [ha, hb] at hab
+      · simp [ha, hb] at hab
+      · simp only [ha, hb, Bool.false_eq_true, if_false, Prod.mk.injEq, true_and] at hab
+        have := lowerSuffix_inj hab; omega
+    have hsub : ∀ x ∈ (List.range fuel).map f, x ∈ pool := by
+      intro x hx
+      obtain ⟨i, hi, rfl⟩ := List.mem_map.mp hx
+      have hi' := List.mem_range.mp hi
+      have ht := hall (ctr + i) (by omega) (by omega)
+      rw [candTaken_eq] at ht
+      simp only [f, pool, List.mem_append, List.mem_map]
+      by_cases hh : nameHit names nm (ctr + i)
+      · simp only [hh, if_true]
+        exact Or.inl ⟨_, nameHit_mem hh, rfl⟩
+      · simp only [hh, Bool.false_eq_true, if_false]
+        have hh' : nameHit names nm (ctr + i) = false := by simpa using hh
+        rw [hh', Bool.false_or] at ht
+        exact Or.inr ⟨_, eidHit_mem ht, rfl⟩
+    have := length_le_of_nodup_subset _ pool hnd hsub
+    simp only [pool, List.length_map, List.length_range, List.length_append] at this
     omega
-where
-  nodup_map_of_inj_on' {α β : Type} {f : α → β} : ∀ {l : List α}, l.Nodup →
-      (∀ a ∈ l, ∀ b ∈ l, f a = f b → a = b) → (l.map f).Nodup
-    | [], _, _ => by simp
-    | x :: l, hnd, hinj => by
-      simp only [List.map_cons, List.nodup_cons] at hnd ⊢
-      refine ⟨?_, nodup_map_of_inj_on' hnd.2 (fun a ha b hb => hinj a (List.mem_cons_of_mem _ ha) b (List.mem_cons_of_mem _ hb))⟩
-      intro hm
-      obtain ⟨y, hy, hxy⟩ := List.mem_map.mp hm
-      have := hinj y (List.mem_cons_of_mem _ hy) x List.mem_cons_self hxy
-      subst this
-      exact hnd.1 hy
 
 theorem libNames_length (d : Design) (lib : Nat) : (d.libNames lib).length ≤ d.ndefs := by
   simp only [Design.libNames]
   have := List.length_filterMap_le (fun j => if (d.defs j).lib = lib then (d.defs j).name else none) (List.range d.ndefs)
   simpa using this
 
+theorem libEids_length (d : Design) (lib : Nat) : (d.libEids lib).length ≤ d.ndefs := by
+  simp only [Design.libEids]
+  have := List.length_filterMap_le (fun j => if (d.defs j).lib = lib then (d.defs j).eid.map lowerStr else none) (List.range d.ndefs)
+  simpa using this
+
 theorem cloneDefn_isSome (d : Design) (D : Defn) : (cloneDefn d D).isSome = true := by
   unfold cloneDefn
   split
   · rfl
-  · rename_i n _
-    have := pickCtr_some (names := d.libNames D.lib) (base := n) (fuel := d.ndefs + 1) (ctr := d.ctr)
-      (by have := libNames_length d D.lib; omega)
-    cases hp : pickCtr (d.libNames D.lib) n (d.ndefs + 1) d.ctr with
+  · have := pickCtr_some (names := d.libNames D.lib) (eids := d.libEids D.lib) (nm := D.name) (eid := D.eid)
+      (fuel := 2 * d.ndefs + 1) (ctr := d.ctr)
+      (by have := libNames_length d D.lib; have := libEids_length d D.lib; omega)
+    cases hp : pickCtr (d.libNames D.lib) (d.libEids D.lib) D.name D.eid (2 * d.ndefs + 1) d.ctr with
     | none => rw [hp] at this; cases this
     | some k => rfl
 
